@@ -45,7 +45,9 @@ type handler interface {
 func afterLoadBinary(k *manifest, srcKey string) error {
 	if data, ok := k.doc[srcKey].(map[string]interface{}); ok {
 		for dk, dv := range data {
-			if ed, err := base64.StdEncoding.DecodeString(dv.(string)); err != nil {
+			if ds, ok := dv.(string); !ok {
+				return fmt.Errorf("value of '%s' in '%s' is not a string", dk, srcKey)
+			} else if ed, err := base64.StdEncoding.DecodeString(ds); err != nil {
 				return err
 			} else {
 				k.binData[dk] = ed
@@ -224,10 +226,12 @@ func ManifestFromBytes(data []byte) (Manifest, error) {
 	var tk, bk string
 
 	if kind, ok := doc["kind"]; ok {
-		if kind.(string) == "Secret" {
+		if ks, ok := kind.(string); !ok {
+			return nil, fmt.Errorf("'kind' element is not a string: %v", kind)
+		} else if ks == "Secret" {
 			bk = keyData
 			tk = keyStringData
-		} else if kind.(string) == "ConfigMap" {
+		} else if ks == "ConfigMap" {
 			bk = keyBinaryData
 			tk = keyData
 		} else {
